@@ -12,9 +12,9 @@ def pick(cfgs, thorough):
     return out
 
 
-def run(prop, quick_cfgs, thorough_extra, mc_cfgs, modes, rule, not_explored, assumptions, sanity=(("ScanWalk-sanity.cfg", "SanityExtract"),), extra=None):
+def run(prop, quick_cfgs, thorough_extra, mc_cfgs, modes, rule, not_explored, assumptions, sanity=(("ScanWalk-sanity.cfg", "SanityExtract"),), extra=None, level="model_checking"):
     a = args.parse()
-    ck = vf.Check(prop, "model_checking", tier=a.tier, seed=a.seed)
+    ck = vf.Check(prop, level, tier=a.tier, seed=a.seed)
     if a.replay:
         rec = json.load(open(a.replay))["replay"]
         if rec.get("family", "scanwalk") == "scanwalk":
